@@ -278,13 +278,15 @@ def counted (ws : List Nat) : Outcome (List Nat × List Nat) :=
   | [] => .err eIO
 
 /-- a ChainedSeqRule / ChainedClassSeqRule at byte offset `off`
-(`inputGlyphCount-1` is computed in `uint16`: a count of 0 asks for 65535 glyphs) -/
+(REPAIRED C02-zero-count: an input glyph count of 0 is refused; `inputGlyphCount-1` in `uint16` used to
+ask for 65535 glyphs) -/
 def readCRule (b : Bytes) (off : Nat) : Outcome Rule :=
   match counted (bytesToWords (b.drop off)) with
   | .ok (back, r1) =>
     match r1 with
     | ic :: r2 =>
-      match takeN r2 (if ic == 0 then 65535 else ic - 1) with
+      if ic == 0 then .err eInvalid
+      else match takeN r2 (ic - 1) with
       | .ok (input, r3) =>
         match counted r3 with
         | .ok (look, r4) =>
